@@ -65,9 +65,16 @@ def main():
         sh("git -C /repo worktree remove --force %s; rm -rf %s; git -C /repo worktree prune" % (W, W))
         rc, out = sh("git -C /repo worktree add -q --detach %s HEAD && cp /repo/Cargo.lock %s/" % (W, W))
         rc, out = sh("git apply %s/patch.diff" % d, cwd=W)
+        at = "HEAD"
+        if rc != 0 and m.get("base_commit"):
+            # /repo has moved on (a later fix: commit rewrote the same lines): evaluate at the commit the change was made for.
+            sh("git checkout -q --detach %s && git checkout -q -- ." % m["base_commit"], cwd=W)
+            rc, out = sh("git apply %s/patch.diff" % d, cwd=W)
+            at = m["base_commit"][:7]
         if rc != 0:
             print(sid, "patch does not apply", out)
             continue
+        m["evaluated_at"] = at
         final = {}
         props = [m["property"]] + [p for p in m.get("also_check", [])]
         for p in props:
